@@ -21,6 +21,24 @@
 // generic.CompareFunc[T] = func(T, T) int, generic.EqualFunc[T] — are pure total functions), a struct
 // whose fields have such types → a `structure`, *S for a struct S of the package → S.
 //
+// Words and strings.  uint / uint64 → UInt64 and byte / uint8 → UInt8: Lean's fixed-width arithmetic wraps around
+// exactly as Go's (uint IS 64 bits: the constant bits.UintSize of the type-checked source is folded to 64);
+// `+ - *`, `& | ^ &^`, unary `- ^`, comparisons, division by a non-zero constant only.  Shifts `<<` `>>` of a uint /
+// uint64 or an int: by a constant count a pure term (a count >= 64 gives 0 for unsigned), otherwise through
+// Go.shrU64 / Go.shlU64 / Go.shrInt / Go.shlInt, which PANIC for a negative count (a count of unsigned type is taken
+// as a natural number); `>>` on int is the arithmetic shift (floor division by 2^s) of the unbounded Int, exact.
+// `& | ^` on int are taken on the 64-bit two's-complement patterns (Go.andInt …: exact for operands that are 64-bit
+// ints — the one place where int is read as a machine word).  Conversions between int, uint / uint64 and byte:
+// byte → int / uint exact, uint → int the same 64 bits in two's complement, int → uint / byte and uint → byte modulo
+// 2^64 / 2^8.  An index of unsigned type is its value as a natural number.  string → Go.Str = the list of its bytes
+// (strings are immutable in Go, so value semantics is trivially sound): len(s), s[i] (a byte; out of range panics),
+// constants, ==, != and the order; no slicing, concatenation or range (runes).  A type parameter constrained by
+// constraints.Ordered / cmp.Ordered gets an instance argument `[Go.Ordered T]`; `<  >  <=  >=` on such a T and on
+// strings are Go.Ordered.lt (instances: Int, UInt64, UInt8, Go.Str = bytewise lexicographic; NO float instance, so
+// `a <= b` may be, and is, translated as `!(b < a)`).  Local `const` declarations are folded into their uses; a named
+// integer type (`type TraversalStrategy int`) is its underlying type; `max` / `min` of integers; `/ %` of uint64 by a
+// variable divisor panic for zero (Go.divU64 / Go.modU64).
+//
 // No aliasing.  Slices, structs and pointers are VALUES in the translation.  That is sound only because the
 // subset cannot create two names for one mutable object, and the translator refuses everything that could:
 //   - a pointer *S may occur only as a method receiver, as the `&S{…}` literal of a return statement, as
@@ -28,11 +46,23 @@
 //     receives such a fresh result (`a := newS(…)`); no pointer-typed parameters or fields (so no linked
 //     structures: list/stack.go, list/queue.go are out — queue.go even keeps two pointers into one chain
 //     and stores through one of them);
-//   - a pointer *R to a struct R of ANOTHER package (generic.KeyValue[K, V]) is an `Option R`: the translated
-//     code has no way to assign to R's fields (stores go only through structs of the translated package), so
-//     such records are immutable and sharing them is unobservable; `nil` is `none`, `p == nil` / `p != nil`
-//     are `isNone` / `isSome` (no other pointer comparison), `p.f` dereferences (`Go.deref`: nil panics),
-//     `&R{…}` is `some {…}`;
+//   - a pointer *R to a struct R of ANOTHER package (generic.KeyValue[K, V]) is an `Option R`: `nil` is `none`,
+//     `p == nil` / `p != nil` are `isNone` / `isSome` (no other pointer comparison), `p.f` dereferences
+//     (`Go.deref`: nil panics), `&R{…}` is `some {…}`.  Two regimes, decided per record type and translation unit:
+//     IMMUTABLE — the translated files contain no assignment through a pointer to R: then nothing can change
+//     an R after its literal was built, and sharing such records is unobservable (heap/binary.go);
+//     MUTABLE — they contain `s[i].f = e` (only this form: the pointer is read from a slice element; also
+//     `s[i].f op= e`; heap/indexed_binary.go's `h.kvs[i].Key = key`): then every R has exactly ONE OWNER, the
+//     slice element its fresh literal was stored into, and `s[i].f = e` is `s[i] := some { (deref s[i]) with
+//     f := e }` (index panic, then nil panic).  Ownership is enforced by refusing everything else that could
+//     make a second reference: a value that contains pointers to R may be stored only if it is `nil`, a
+//     fresh `&R{…}` / composite literal, `make`, or the result of a translated function (which is fresh or
+//     moved by these very rules); no copy / append of slices of such pointers; no parameter (except the
+//     receiver) and no result of a non-constructor whose type contains such pointers.  The one exception is
+//     the BORROW `x := s[i]` into a NEW local variable outside any loop: x is a read-only second reference, which
+//     is sound because it is accepted only in functions that — directly or through any callee — contain no
+//     assignment through a pointer to a mutable record at all, so the record cannot change while x lives (x
+//     keeps its value when the slot is overwritten, `s[i] = nil`, exactly as the Go pointer keeps the record);
 //   - an existing slice or struct is never stored a second time (`b := a`, `s.f = a`, `return s.f`,
 //     `t := *s` are rejected); only a LOCAL variable may be given up: in a return statement / returned
 //     literal, or in an assignment outside any loop after which the function never mentions it again
@@ -40,9 +70,38 @@
 //   - a slice parameter is never reassigned as a whole (Go would not show that to the caller);
 //   - a slice that a callee modifies does not reach it twice (two arguments, or argument + receiver);
 //   - slices grow only in place: `x = append(x, v)` → `x.push v` (with no second reference to x's array,
-//     whether Go reallocates is unobservable); `append([]T{…}, s...)` builds a fresh slice; `copy(dst, src)`,
-//     `copy(dst[l:h], src[l2:h2])` store into dst; a slice EXPRESSION s[l:h] is allowed only as the source
-//     of copy / append; no package-level variables, maps, strings, floats, channels, closures, defer, goto.
+//     whether Go reallocates is unobservable; x may be an element of a slice of slices, `g.adj[v] = append(g.adj[v],
+//     w)` — an inner slice is never stored a second time either); `append([]T{…}, s...)` builds a fresh slice;
+//     `x = append(x[:i], x[i+1:]...)` (exactly this shape, i a variable) removes element i: whatever the capacity,
+//     Go panics unless 0 <= i and i+1 <= len(x) — x[i+1:] is checked against the LENGTH — and otherwise the result
+//     is x without its i-th element; `copy(dst, src)`, `copy(dst[l:h], src[l2:h2])` store into dst; a slice
+//     EXPRESSION s[l:h] is allowed only as the source of copy / append and in the removal shape; a nil slice is the
+//     empty one (comparing a slice with nil is refused, so they cannot be told apart);
+//   - a fixed-size array [N]T is a VALUE in Go — assignment, parameter passing and `range` copy it — so it is an
+//     Array without any aliasing rule (a parameter of array type is assumed to have length N, as Go guarantees);
+//   - a variadic parameter `vals ...T` is a slice parameter the function only reads (assigning to its elements is
+//     refused: the caller would see it for `f(xs...)` and not for `f(a, b)`); `f(a, b)` passes a fresh `#[a, b]`;
+//   - a constructor declared to return an interface may return a local variable that holds a fresh `&S{…}`;
+//   - no package-level variables, maps, floats, channels, closures, defer, goto.
+//
+// Random generators.  A `*rand.Rand` (math/rand) is the VALUE `Go.Rand`: the stream of the draws the generator
+// will still produce and the number already consumed.  `r.Intn(n)` (the only method accepted) panics for
+// n <= 0, otherwise consumes one draw and yields it reduced into [0, n): whatever the real generator does,
+// some stream reproduces it, and every stream respects Intn's contract, so a theorem for all streams covers
+// all generators and seeds.  The generator is mutable state behind a pointer, so it is treated exactly like a
+// slice whose elements a callee modifies: it may be a PARAMETER (assumed non-nil, as method receivers are) or a
+// local variable, only of the form of a plain identifier; a function that calls Intn on a parameter (or passes it
+// to one that does) returns the advanced generator in its result tuple; it is never stored a second time, never
+// passed twice to one call, never a field; Intn in the right operand of && / || is refused (a conditional
+// store).  `rand.New(rand.NewSource(seed))` is accepted only where `seed` is a clock reading — a local variable
+// initialised by `time.Now()[.UTC()].UnixNano()` and used for nothing else, or that expression itself — outside
+// any loop, at most once per function: reading the clock changes nothing, and the resulting generator is an
+// arbitrary stream, which becomes the function's parameter `(rand_ : Nat → Int)` (after `fuel`).  A translated
+// function may not call such a function (its stream would have to be split).
+// The PACKAGE-LEVEL generator (`rand.Intn(n)`, the function) is hidden global state: every function that draws from
+// it, directly or through a callee, gets it as an extra LAST in-out parameter `grand_ : Go.Rand` (and returns it with
+// its results, after the modified slice parameters); sound because nothing else can draw from it during a call of
+// translated code (function values are pure, there are no goroutines).
 //
 // Functions.  `func (u *S) M(p int) (int, bool)` → `def S.M [(fuel : Nat)] (u : S) (p : Int) :
 // Outcome (… )`.  A function is PURE (plain result type, no Outcome) when it has no indexing, loop,
@@ -71,12 +130,18 @@
 //     (also `<=`, and `i--` with `>` / `>=`) where `i` is not assigned in the body and nothing `b`
 //     reads is assigned in the body (`len(s)` is unaffected by element stores) — recurse on the trip
 //     count `(b - a).toNat` (computed once, before the loop) and cannot diverge;
-//   - every OTHER loop — `for cond { … }`, `for init; cond; post { … }` — takes FUEL: one unit per
-//     evaluation of the condition, `Outcome.diverge` when it runs out.  A function that contains such
+//   - every OTHER loop — `for cond { … }`, `for { … }`, `for init; cond; post { … }` (an init statement that
+//     is not a `:=`, e.g. `for i++; …`, is an ordinary statement executed before the loop) — takes FUEL: one
+//     unit per evaluation of the condition (per iteration when there is none), `Outcome.diverge` when it runs out.  A function that contains such
 //     a loop, or is recursive, or calls such a function, gets a leading parameter `(fuel : Nat)`
 //     which it hands to each of its loops / callees unchanged; a recursive function recurses
 //     structurally on its fuel (one unit per call).  The CALLER chooses the fuel; the theorems about
 //     the generated definitions say which fuel suffices (e.g. `len(u.root)` for union-find's Find).
+//
+// RECURSION INSIDE A LOOP (`for r := 0; r < R; r++ { msdString(a, aux, lo+count[r], …) }`).  A loop is a definition
+// that precedes its function, so a loop whose body calls the function being translated receives that function —
+// already applied to its type arguments and to the remaining fuel — as a parameter `rec_`, and the function passes
+// `(F fuel)` at the loop's call; Lean accepts this as structural recursion on the fuel.
 //
 // `break` leaves the loop with the current state, `continue` runs the post statement and goes on; a loop
 // whose body contains `return` yields `Go.Ctl.ret r` (r = the function's result) instead of
@@ -86,7 +151,8 @@
 //
 // # Trusted
 //
-// This program; AlgoVerif/Model/GoRt.lean (the Lean reading of indexing, make, division, copy);
+// This program; AlgoVerif/Model/GoRt.lean (the Lean reading of indexing, make, division, copy, Intn, shifts, the
+// 64-bit bitwise operators on int, string indexing and order);
 // Lean's `do` notation; and Go's semantics of exactly the constructs above.  Not modelled: integer
 // overflow (int is unbounded), memory exhaustion, goroutines.
 package main
@@ -110,23 +176,40 @@ func die(format string, a ...any) {
 	os.Exit(1)
 }
 
-// modImporter type-checks packages of /repo's own module from source (imports inside the module),
-// and the standard library from GOROOT's source.
+// modImporter type-checks packages of /repo's own module from source (imports inside the module), the packages of
+// the modules that go.mod requires from the module cache (offline), and the standard library from GOROOT's source.
 type modImporter struct {
 	repo, modpath string
 	fset          *token.FileSet
 	cache         map[string]*types.Package
 	std           types.Importer
+	requires      [][2]string // module path, version — the require lines of go.mod
+	modcache      string      // GOMODCACHE
 }
 
 func (m *modImporter) Import(path string) (*types.Package, error) {
 	if p, ok := m.cache[path]; ok {
 		return p, nil
 	}
-	if path != m.modpath && !strings.HasPrefix(path, m.modpath+"/") {
-		return m.std.Import(path)
+	dir := ""
+	switch {
+	case path == m.modpath || strings.HasPrefix(path, m.modpath+"/"):
+		dir = filepath.Join(m.repo, strings.TrimPrefix(strings.TrimPrefix(path, m.modpath), "/"))
+	default:
+		// a package of a module that go.mod requires: its source in the module cache (offline), longest module path first
+		best := -1
+		for i, r := range m.requires {
+			if (path == r[0] || strings.HasPrefix(path, r[0]+"/")) && (best < 0 || len(r[0]) > len(m.requires[best][0])) {
+				best = i
+			}
+		}
+		if best < 0 || m.modcache == "" {
+			return m.std.Import(path)
+		}
+		r := m.requires[best]
+		dir = filepath.Join(m.modcache, escapeModPath(r[0])+"@"+r[1], strings.TrimPrefix(strings.TrimPrefix(path, r[0]), "/"))
 	}
-	files, err := parseDir(m.fset, filepath.Join(m.repo, strings.TrimPrefix(strings.TrimPrefix(path, m.modpath), "/")))
+	files, err := parseDir(m.fset, dir)
 	if err != nil {
 		return nil, err
 	}
@@ -159,6 +242,55 @@ func parseDir(fset *token.FileSet, dir string) ([]*ast.File, error) {
 		files = append(files, f)
 	}
 	return files, nil
+}
+
+// escapeModPath: the module cache spells an upper-case letter as '!' + its lower case.
+func escapeModPath(p string) string {
+	var b strings.Builder
+	for _, c := range p {
+		if c >= 'A' && c <= 'Z' {
+			b.WriteByte('!')
+			c += 'a' - 'A'
+		}
+		b.WriteRune(c)
+	}
+	return b.String()
+}
+
+// requirements lists the (module, version) pairs of go.mod's require directives.
+func requirements(repo string) (out [][2]string) {
+	b, err := os.ReadFile(filepath.Join(repo, "go.mod"))
+	if err != nil {
+		return nil
+	}
+	inBlock := false
+	for _, l := range strings.Split(string(b), "\n") {
+		f := strings.Fields(strings.SplitN(l, "//", 2)[0])
+		switch {
+		case len(f) == 2 && f[0] == "require" && f[1] == "(":
+			inBlock = true
+		case inBlock && len(f) == 1 && f[0] == ")":
+			inBlock = false
+		case inBlock && len(f) == 2:
+			out = append(out, [2]string{f[0], f[1]})
+		case len(f) == 3 && f[0] == "require":
+			out = append(out, [2]string{f[1], f[2]})
+		}
+	}
+	return out
+}
+
+func goModCache() string {
+	if d := os.Getenv("GOMODCACHE"); d != "" {
+		return d
+	}
+	if d := os.Getenv("GOPATH"); d != "" {
+		return filepath.Join(filepath.SplitList(d)[0], "pkg", "mod")
+	}
+	if h, err := os.UserHomeDir(); err == nil {
+		return filepath.Join(h, "go", "pkg", "mod")
+	}
+	return ""
 }
 
 func modulePath(repo string) string {
@@ -194,7 +326,7 @@ func main() {
 	}
 	mod := modulePath(*repo)
 	imp := &modImporter{repo: *repo, modpath: mod, fset: fset, cache: map[string]*types.Package{},
-		std: importer.ForCompiler(fset, "source", nil)}
+		std: importer.ForCompiler(fset, "source", nil), requires: requirements(*repo), modcache: goModCache()}
 	info := &types.Info{
 		Types:     map[ast.Expr]types.TypeAndValue{},
 		Defs:      map[*ast.Ident]types.Object{},
